@@ -79,10 +79,27 @@ Proof. exact reconfigure_history_free. Qed.
    on the previous state *)
 Theorem c12_hinting_instance_reconfigure_history_free : forall run inner_cfg cff auto s s' cfg,
   outer_reconfigure run inner_cfg cff auto setup_table gen_reset_fields hinting_instance_table
-                    cff_subfonts_cleared s cfg =
+                    cff_subfonts_cleared gen_auto_reuse s cfg =
   outer_reconfigure run inner_cfg cff auto setup_table gen_reset_fields hinting_instance_table
-                    cff_subfonts_cleared s' cfg.
+                    cff_subfonts_cleared gen_auto_reuse s' cfg.
 Proof. exact outer_history_free. Qed.
+
+(* autohinter: the extracted Engine::Auto arm / Instance::new do not carry the replaced instance over ... *)
+Theorem c12_extracted_autohint_discipline_ok : gen_auto_reuse = false.
+Proof. exact gen_auto_discipline_holds. Qed.
+(* ... so its lazily filled per-(font, location) metrics cache is empty after every reconfigure ... *)
+Theorem c12_auto_cache_fresh_after_reconfigure : forall run inner_cfg cff auto s cfg,
+  oc_engine cfg = EAuto -> oc_fmt cfg <> FNone ->
+  exists i, o_kind (snd (outer_reconfigure run inner_cfg cff auto setup_table gen_reset_fields
+                           hinting_instance_table cff_subfonts_cleared gen_auto_reuse s cfg)) = KAuto i [].
+Proof. exact outer_auto_cache_fresh. Qed.
+(* ... and draws through a cache that holds only this location's metrics (in particular an empty one) return
+   this location's metrics, in any order, and keep it so *)
+Theorem c12_auto_draws_function_of_location : forall compute coords sts c,
+  cache_sound compute coords c ->
+  snd (auto_draw_all compute coords c sts) = map (compute coords) sts /\
+  cache_sound compute coords (fst (auto_draw_all compute coords c sts)).
+Proof. exact auto_draws_function_of_location. Qed.
 
 (* --- draws do not write the instance; order of draws is irrelevant --- *)
 Theorem c12_hint_does_not_write_instance : forall gp s g, fst (hint gp s g) = s.
@@ -120,6 +137,9 @@ Print Assumptions c12_post_reset_history_free.
 Print Assumptions c12_extracted_discipline_ok.
 Print Assumptions c12_reconfigure_history_free.
 Print Assumptions c12_hinting_instance_reconfigure_history_free.
+Print Assumptions c12_extracted_autohint_discipline_ok.
+Print Assumptions c12_auto_cache_fresh_after_reconfigure.
+Print Assumptions c12_auto_draws_function_of_location.
 Print Assumptions c12_hint_does_not_write_instance.
 Print Assumptions c12_draw_order_independent.
 Print Assumptions c12_zero_location_equiv.
